@@ -55,6 +55,26 @@ fn backend_case(ctx: &mut Ctx, fields: &[Field], rows: &[Val], label: &str) {
             let via2 = guarded(|| { let de = serde_arrow::Deserializer::from_arrow2(f2, a2a).map_err(|e| e.to_string())?; read_all(&de, fields) });
             match (&base, &via2) { (Out::Ok(x), Out::Ok(y)) => if x != y { fails.push(("back_ends_differ_in_content", "rows read from the arrow2 arrays differ".into())); }, (x, y) => if x.class() != y.class() { fails.push(("back_ends_disagree_on_reading", format!("from_marrow {} but from_arrow2 {}", x.class(), y.class()))); } }
         }
+        // the same rows as the second and third batch of one reused builder: each back end must give what its one-shot
+        // entry point gives (arrays incl. their data types - child field names, nullability, metadata - and the batch)
+        if label == "valid" {
+            let reused = guarded(|| {
+                let mut b = serde_arrow::ArrayBuilder::from_arrow(&af).map_err(|e| e.to_string())?;
+                b.extend(rows).map_err(|e| e.to_string())?; b.to_arrow().map_err(|e| format!("first batch: {}", e))?;
+                b.extend(rows).map_err(|e| e.to_string())?; let second = b.to_arrow().map_err(|e| format!("second batch to_arrow: {}", e))?;
+                b.extend(rows).map_err(|e| e.to_string())?; let third = b.to_record_batch().map_err(|e| format!("third batch to_record_batch: {}", e))?;
+                Ok::<_, String>((second, third))
+            });
+            ctx.count(&format!("reused_builder:{}", reused.class()));
+            match &reused {
+                Out::Ok((second, third)) => {
+                    if second != aa { fails.push(("reused_builder_differs", format!("second batch of a reused builder (to_arrow) {:?} differs from the one-shot arrays {:?}", second, aa))); }
+                    if let Out::Ok(batch) = &rb { if third != batch { fails.push(("reused_builder_differs", "third batch of a reused builder (to_record_batch) differs from the one-shot batch".into())); } }
+                }
+                Out::Err(e) => fails.push(("reused_builder_differs", format!("one-shot conversion succeeds, the reused builder fails: {}", e))),
+                Out::Panic(e) => fails.push(("panic", format!("reused builder panics: {}", e))),
+            }
+        }
         // the arrow arrays as views, for the specification oracle
         let views: Result<Vec<View>, _> = aa.iter().map(|x| View::try_from(&**x)).collect();
         if let Ok(vs) = views { coq_impl = format!("(Ok {})", cf::list(&vs, view_coq)); }
@@ -67,7 +87,7 @@ fn backend_case(ctx: &mut Ctx, fields: &[Field], rows: &[Val], label: &str) {
 pub fn run(ctx: &mut Ctx) {
     ctx.runner = "RunC19".into();
     ctx.shard_size = 100;
-    ctx.rule = "random schemas (1-3 fields, depth <= 3, all supported data types, field metadata) x 0-17 rows in random presentations (a fifth with one injected invalid value) through to_marrow, to_arrow, to_record_batch and - where arrow2 offers the types - to_arrow2: equal success / failure; every row read back through Deserializer::from_marrow / from_arrow / from_record_batch / from_arrow2 with a recording probe and compared; record batch fields (incl. metadata) equal to the given fields; the arrow arrays, converted to views, judged inside Coq by the C01 specification oracle (well-formed batch, decode = interp). Thorough: the crate is additionally built and run under further feature configurations (tools/c19_matrix.py). Non-trivial: all; distinct by (schema, rows, outcomes)".into();
+    ctx.rule = "random schemas (1-3 fields, depth <= 3, all supported data types, field metadata) x 0-17 rows in random presentations (a fifth with one injected invalid value) through to_marrow, to_arrow, to_record_batch and - where arrow2 offers the types - to_arrow2: equal success / failure; every row read back through Deserializer::from_marrow / from_arrow / from_record_batch / from_arrow2 with a recording probe and compared; record batch fields (incl. metadata) equal to the given fields; the same rows as second and third batch of one reused ArrayBuilder give the one-shot arrays (data types incl. child fields) and batch; the arrow arrays, converted to views, judged inside Coq by the C01 specification oracle (well-formed batch, decode = interp). Thorough: the crate is additionally built and run under further feature configurations (tools/c19_matrix.py). Non-trivial: all; distinct by (schema, rows, outcomes)".into();
     let n = if ctx.thorough { 8000 } else { 500 };
     for _ in 0..n {
         let mut rng = ctx.rng.fork();
